@@ -19,7 +19,10 @@ VARIABLE_SIZE = {"BeeColonyOptimization", "ForestOptimizationAlgorithm", "Imperi
 
 
 def job_key(job):
-    return {k: job.get(k) for k in ("name", "specs", "objective", "minmax", "weights", "seed", "cfg", "mode", "workers", "pool_perm")}
+    out = {k: job.get(k) for k in ("name", "specs", "objective", "minmax", "weights", "seed", "cfg", "mode", "workers", "pool_perm")}
+    # what makes a run a multi-step history must survive into the replay file
+    out.update({k: job[k] for k in ("warmup", "derive_from", "weights_initial", "weights_via", "delay", "utils", "raise_after") if job.get(k) is not None})
+    return out
 
 
 def why_not_member(specs, pos):
@@ -344,7 +347,9 @@ def exception_signature(r):
 
 
 def check_skeleton_conformance(ctx, results, steps):
-    """translator validation (a test, not a theorem): what the generated step skeleton of a class claims must be visible in its runs.
+    """translator validation: what the generated step skeleton of a class claims must be visible in its runs.  Each comparison is a proved
+    consequence of the claim (`C10.size_sound`; `C17.monotone_rank_sound` + `rank_le_of_countDom` = `C17.c17_skeleton_ranks`: every rank of the
+    sorted cost vector, not only the best), so a run that contradicts it refutes the generated classification, never the theorem.
     * all writes `mapGreedy`           ⇒ per index, the cost never increases from one generation to the next;
     * monotone skeleton (greedy/elitist writes only, size preserved) ⇒ the sorted cost vector never increases at any rank;
     * size-preserving skeleton         ⇒ constant generation size.
@@ -378,3 +383,78 @@ def check_skeleton_conformance(ctx, results, steps):
             if st["monotone"] and len(a) == len(b) and any(y > x for x, y in zip(sorted(a), sorted(b))):
                 ctx.disagree(SUITE + "/skeleton", {"job": job_key(job), "generation": k + 1}, "monotone skeleton: sorted cost vector never increases at any rank", "a rank got costlier")
                 break
+
+
+def _undump_num(v):
+    return from_bits(v["f"]) if isinstance(v, dict) and "f" in v else v
+
+
+def stop_cycle(rates, max_cycles, fe, es):
+    """the declarative criterion of C04 over a rate history: the first cycle k ≥ 1 at which a configured criterion holds (None = not within the history).
+    `es` = (patience, min_delta); the differences start from `rate₁ − 0` as `__error_check__` records them."""
+    diffs = [rates[0] - 0] + [rates[i] - rates[i - 1] for i in range(1, len(rates))] if rates else []
+    for k in range(1, len(rates) + 1):
+        stop = k >= max_cycles
+        if fe is not None and rates[k - 1] <= fe:
+            stop = True
+        if es is not None:
+            p, md = es
+            if all(d < 0 and abs(d) < md for d in diffs[max(0, k - p):k]):
+                stop = True
+        if stop:
+            return k
+    return None
+
+
+def check_c04(ctx, results):
+    """C04 on runs of the real optimizers (the scripted S-loop suite drives the same loop with arbitrary histories; this one looks at what every class
+    actually reports): one generation and one rate per executed cycle, each rate = |1 − mean fitness| of its generation (np.average over the recorded
+    agents, in recorded order: bit-exact), at most max(max_cycles, 1) cycles, and the run stopped at the FIRST cycle at which a configured criterion held —
+    judged over the reported rate history by the model's `firstStop` (driver op `loop.firststop`, IEEE doubles; theorem `C04.c04_reported`)."""
+    import numpy as np
+    from .lean import run_driver_parallel
+    todo = []
+    for r in results:
+        if "result" not in r:
+            continue
+        job, res = r["job"], r["result"]
+        cfg = r.get("cfg_before") or {}
+        mc = cfg.get("max_cycles")
+        fe = _undump_num(cfg.get("fitness_error"))
+        esd = cfg.get("early_stopping")
+        es = None if esd is None else (esd.get("patience"), _undump_num(esd.get("min_delta")))
+        if mc is None or (es is not None and (es[0] is None or es[1] is None)):
+            continue
+        rates = [from_bits(b) for b in res["rates"]]
+        gens = res["evolution"]
+        n = len(rates)
+        ctx.dist["c04-real-runs"] += 1
+        why = None
+        if len(gens) != n + 1:
+            why = f"generations-and-rates-out-of-step: {len(gens)} generations, {n} rates"
+        elif n > max(mc, 1):
+            why = f"more-cycles-than-max_cycles: {n} > {mc}"
+        else:
+            for k in range(n):
+                fits = [from_bits(a["fit"]) for a in gens[k + 1]]
+                if not fits:
+                    continue
+                want = abs(1 - float(np.average(fits)))
+                if bits(want) != bits(rates[k]) and not (want != want and rates[k] != rates[k]):
+                    why = f"rate-is-not-1-minus-mean-fitness: cycle {k + 1}: reported {rates[k]!r}, generation gives {want!r}"
+                    break
+        meta = {"job": job_key(job), "rates": rates[:12], "max_cycles": mc, "fitness_error": fe, "early_stopping": es}
+        if why:
+            ctx.fail(f"C04/{job['name']}/{why.split(':')[0]}", why, SUITE, meta)
+        elif n and not any(x != x for x in rates):
+            todo.append((job, meta, n, {"op": "loop.firststop", "rates": res["rates"], "maxCycles": mc, "fe": None if fe is None else bits(fe),
+                                        "es": None if es is None else {"patience": es[0], "minDelta": bits(es[1])}}))
+    for (job, meta, n, _), ans in zip(todo, run_driver_parallel([t[3] for t in todo])):
+        k0 = ans.get("first") if isinstance(ans, dict) else None
+        py = stop_cycle(meta["rates"], meta["max_cycles"], meta["fitness_error"], meta["early_stopping"]) if n <= 12 else k0
+        if py != k0:
+            ctx.disagree(SUITE + "/firststop", meta, k0, f"harness's own reading of the criterion: {py}")
+        if k0 is None:
+            ctx.fail(f"C04/{job['name']}/stopped-before-any-criterion-held", f"{n} cycles, no criterion holds on the reported rates: {meta}", SUITE, meta)
+        elif k0 != n:
+            ctx.fail(f"C04/{job['name']}/did-not-stop-at-the-first-criterion", f"criterion first holds at cycle {k0}, run executed {n}", SUITE, meta)
